@@ -404,9 +404,22 @@ def r132(ctx, R):
                  'the helper is applied to this filter\'s value',
                  [src(a) for a in hc.args], func=f, node=hc)
             if kind == 'eq-root':
-                okr = src(arg) in names and any(
-                    isinstance(a, ast.Assign) and src(a.value).endswith(
-                        '.root_id') for a in own_nodes_of(b))
+                # the compared value is <result of the helper>.root_id,
+                # directly or through a local of the block
+                val = arg
+                for _i in range(3):
+                    if isinstance(val, ast.Name):
+                        ds = [a.value for a in own_nodes_of(b)
+                              if isinstance(a, ast.Assign) and any(
+                                  isinstance(t, ast.Name) and t.id == val.id
+                                  for t in a.targets)]
+                        val = ds[0] if len(ds) == 1 else None
+                hst = C.stmt_of(hc)
+                okr = isinstance(val, ast.Attribute) and val.attr == \
+                    'root_id' and isinstance(val.value, ast.Name) and \
+                    isinstance(hst, ast.Assign) and hst.value is hc and any(
+                        isinstance(t, ast.Name) and t.id == val.value.id
+                        for t in hst.targets)
                 R.ob('R13.2', cons + ':root', okr,
                      'compared with the root id of the provider found',
                      src(arg), func=f, node=w)
